@@ -45,6 +45,11 @@ def run(ctx):
     r = ctx.tlc("LookupPeers", "LookupPeers_peersonly.cfg", timeout=300, label="prune-peers-only (expected: PeersAreTheConfigured violated)")
     if r.violated != "PeersAreTheConfigured":
         raise Inconclusive("LookupPeers_peersonly.cfg is not refuted (got %s)" % r.violated)
+    # the start gate behind the pre-creation clause (NsqdTopic, situation "unstarted"): a topic that is in the map but not
+    # started yet -- channels are created, publishers find it; every interleaving forced on the real daemon: everything it
+    # accepted reaches every channel there is when Start() is called
+    import tpairs
+    tpairs.run_tpairs(ctx, "C16", only=lambda t: "START" in t)
     cases = []
     for i in range(2):
         cases.append({"kind": "reorder", "seed": i, "nlookupd": 1 + i % 2, "fails": []})
